@@ -62,6 +62,7 @@ PROBES = {
         "compose-done",
         "client-modified-comp-read-from-map",
         "map-derived-from-stored-map",
+        "pickle:mapper-reads-compared",
         "map-with-conditions",
     ]
 }
@@ -179,8 +180,11 @@ class Case(object):
         self.decided = 0
         self.incomparable = 0
         conf.Cas.complexity = op.get("complexity", 10000)
-        conf.Cas.noaliasing = True
+        # aliasing assumed away (amoco's default) or not (the mode of the repo's own mapper tests)
+        conf.Cas.noaliasing = not op.get("aliasing", False)
         conf.Cas.memtrace = True
+        if op.get("aliasing"):
+            st.hit("config:aliasing-on")
         self.regs = {}
         # tracked nodes are per case
         self.B.tracked.clear()
@@ -737,6 +741,29 @@ class Case(object):
                 raise Failure("pickle-differs", {"what": "mapper", "orig": la[:6], "restored": ly[:6]})
             if [fingerprint(v) for _, v in m] != [fingerprint(v) for _, v in y]:
                 raise Failure("pickle-differs", {"what": "mapper-structure", "orig": la[:6]})
+            # "evaluates identically": every written location read back through both forms
+            from amoco.cas.expressions import mem as _mem
+
+            for l, v in list(m):
+                if l._is_ptr and v.size % 8 == 0:
+                    k_ = _mem(l, v.size)
+                    for form in ("index", "call"):
+                        try:
+                            ra = m[k_] if form == "index" else m(k_)
+                        except Exception as e:
+                            ra = "exc:" + type(e).__name__
+                        try:
+                            ry = y[k_] if form == "index" else y(k_)
+                        except Exception as e:
+                            ry = "exc:" + type(e).__name__
+                        if str(ra) != str(ry):
+                            raise Failure("pickle-differs", {"what": "mapper-read-" + form, "loc": str(l), "orig": str(ra)[:200], "restored": str(ry)[:200]})
+                        if not isinstance(ra, str):
+                            for kk in range(K):
+                                va, vy = self.evaluate(ra, kk), self.evaluate(ry, kk)
+                                if va != vy:
+                                    raise Failure("pickle-differs", {"what": "mapper-read-eval-" + form, "loc": str(l), "orig": va, "restored": vy})
+                    self.st.hit("probe:pickle:mapper-reads-compared")
         else:
             y = pickle.loads(pickle.dumps(self.mm))
             self.st.hit("probe:pickle:memorymap")
@@ -829,7 +856,7 @@ class Gen(object):
 
     def start(self, r):
         self.reset(r)
-        ops = [{"op": "case", "complexity": r.choice([10000, 10000, 30, 8])}]
+        ops = [{"op": "case", "complexity": r.choice([10000, 10000, 30, 8]), "aliasing": r.random() < 0.35}]
         # shared leaves
         regs = [("a1", 1), ("a8", 8), ("b8", 8), ("a16", 16), ("b16", 16), ("a32", 32), ("b32", 32), ("c32", 32), ("a64", 64), ("b64", 64), ("s8", 8), ("s32", 32)]
         for name, size in regs:
@@ -948,7 +975,10 @@ class Gen(object):
                 if sa % 8 or "a32" not in case.regs:
                     return None
                 # push-like (descending, adjacent), rewrite of an earlier slot, or anywhere
-                hist = self.memhist.setdefault(m, [])
+                bname = r.choice(["a32", "a32", "b32", "c32"])
+                if bname not in case.regs:
+                    bname = "a32"
+                hist = self.memhist.setdefault((m, bname), [])
                 x = r.random()
                 if hist and x < 0.4:
                     disp = hist[-1][0] - sa // 8
@@ -957,7 +987,7 @@ class Gen(object):
                 else:
                     disp = r.choice([0, 4, 8, 12, 16, r.randrange(0, 24)])
                 hist.append((disp, sa // 8))
-                op.update({"m": m, "base": "a32", "disp": disp})
+                op.update({"m": m, "base": bname, "disp": disp})
         elif k == "map_get":
             op.update({"m": "m%d" % r.randrange(3), "pub": pub})
         elif k == "map_read_modify":
